@@ -141,15 +141,20 @@ Definition pretty (colorize : bool) (max_cat : nat) (st : pstate) (m : msg) : ps
    m_time m ++ [SP] ++ typ ++ [SP] ++ thread_part ++ cat_part ++ pad ++ body).
 
 (* ------------------------------------------------------------------ menus (own few-line models) *)
-(* category rules: exact name, or name + trailing wildcard, optional typed suffix; last match wins *)
-Record crule := { r_name : qstr; r_wild : bool; r_type : option mtype; r_enabled : bool }.
+(* category rules: exact name, name + trailing wildcard ("name*": the category starts with name), or
+   wildcard + name + wildcard ("*name*": the category contains name; name itself has no wildcard),
+   optional typed suffix; last match wins *)
+Inductive rkind := KExact | KPrefix | KContains.
+Record crule := { r_name : qstr; r_kind : rkind; r_type : option mtype; r_enabled : bool }.
 Definition rule_matches (r : crule) (cat : qstr) (t : mtype) : bool :=
-  (if r_wild r then prefixb (r_name r) cat else seqb (r_name r) cat)
+  (match r_kind r with KExact => seqb (r_name r) cat | KPrefix => prefixb (r_name r) cat
+                     | KContains => containsb (r_name r) cat end)
   && match r_type r with None => true | Some t' => mtype_eqb t t' end.
 Definition cat_pass (rs : list crule) (cat : qstr) (t : mtype) : bool :=
   fold_left (fun en r => if rule_matches r cat t then r_enabled r else en) rs true.
 Definition rule_text (r : crule) : qstr :=
-  r_name r ++ (if r_wild r then qs "*" else [])
+  (match r_kind r with KContains => qs "*" | _ => [] end) ++ r_name r
+  ++ (match r_kind r with KExact => [] | _ => qs "*" end)
   ++ match r_type r with Some t => qs "." ++ type_name t | None => [] end
   ++ qs "=" ++ (if r_enabled r then qs "true" else qs "false").
 Definition rules_text (rs : list crule) : qstr := join (qs ";") (map rule_text rs).
